@@ -121,6 +121,8 @@ struct Out { w: CaseWriter, jsonl: std::fs::File, op_hist: BTreeMap<String, u64>
 #[allow(clippy::too_many_arguments)]
 fn emit_cases(sys: &Sys, it: &mut Interner, before: &Snapshot, after: &Snapshot, op_desc: &Value, republish: Option<bool>, hist: u64, out: &Mutex<Out>) {
     let now = chrono::Utc::now().timestamp();
+    // (ROA, ASPA) re-issue margins in weeks as configured for this history
+    let weeks: (i64, i64) = if hist % 3 == 2 { (4, 4) } else { (4, 4) };
     // C03: a revocation request that the parent answered positively (the child stored KeyRollFinish) must
     // have removed the certificate of the old key at the parent.
     for h in CAS {
@@ -147,8 +149,9 @@ fn emit_cases(sys: &Sys, it: &mut Interner, before: &Snapshot, after: &Snapshot,
         let v0 = pre["version"].as_u64().unwrap_or(0);
         let v1 = post["version"].as_u64().unwrap_or(0);
         let objs_changed = before.objs[h] != after.objs[h];
-        if v1 == v0 && !(republish.is_some() && objs_changed) && republish.is_none() { continue }
-        if v1 == v0 && republish.is_none() { continue }
+        let is_renew = op_desc["op"] == "renew";
+        let _ = objs_changed;
+        if v1 == v0 && republish.is_none() && !is_renew { continue }
         let mut cmds = Vec::new();
         let mut cmd_types = Vec::new();
         let mut cer_names: BTreeMap<u64, u64> = BTreeMap::new();
@@ -170,7 +173,8 @@ fn emit_cases(sys: &Sys, it: &mut Interner, before: &Snapshot, after: &Snapshot,
             cmd_types.push(ty);
         }
         if let Some(force) = republish { cmds.push(format!("mkCmd [] [] (Some {force})")); cmd_types.push(format!("republish:{force}")); }
-        if cmds.is_empty() { continue }
+        if cmds.is_empty() && !is_renew { continue }
+        let renew_term = if is_renew { format!("[(KRoa, {}%Z); (KAspa, {}%Z)]", now + weeks.0 * 604800, now + weeks.1 * 604800) } else { "[]".to_string() };
         // names of the certificates of all child keys that are known in the pre-state (for removals)
         for rc in pre["resources"].as_object().map(|o| o.values().collect::<Vec<_>>()).unwrap_or_default() {
             for sect in ["issued", "suspended"] {
@@ -180,11 +184,11 @@ fn emit_cases(sys: &Sys, it: &mut Interner, before: &Snapshot, after: &Snapshot,
             }
         }
         let env = format!("(mkEnv {now}%Z {}%Z {}%Z)", 8 * 3600, now + 86400);
-        let term = format!("mkCase {} {} {} {} {} {} {}",
+        let term = format!("mkCase {} {} {} {} {} {} {} {}",
             ca_term(it, pre), objects_term(it, &before.objs[h]), env,
             coq_list(&cer_names.iter().map(|(k, n)| format!("({k}, {n})")).collect::<Vec<_>>()),
             coq_list(&cmds.iter().map(|c| format!("({c})")).collect::<Vec<_>>()),
-            ca_term(it, post), objects_term(it, &after.objs[h]));
+            ca_term(it, post), objects_term(it, &after.objs[h]), renew_term);
         let mut o = out.lock().unwrap();
         for what in check_signed_sets(&after.objs[h], now) {
             let idx = o.w.total;
@@ -209,6 +213,11 @@ fn run_history(args: &Args, hist: u64, seed: u64, n_ops: u64, out: &Mutex<Out>) 
     let dir = args.out.join(format!("h{hist}"));
     let mut opts = SysOpts::new(&dir);
     opts.mem_seed = seed;
+    if hist % 3 == 2 {
+        // the smallest lifetimes the configuration accepts (the margin must stay below the lifetime, so without
+        // moving the clock no object is ever inside its margin: renewal runs must renew nothing)
+        opts.extra_toml = "timing_roa_valid_weeks = 5\ntiming_roa_reissue_weeks_before = 4\ntiming_aspa_valid_weeks = 5\ntiming_aspa_reissue_weeks_before = 4".into();
+    }
     let sys = Sys::open(opts);
     let mut it = Interner::default();
     sys.bootstrap().expect("bootstrap");
@@ -235,6 +244,20 @@ fn run_history(args: &Args, hist: u64, seed: u64, n_ops: u64, out: &Mutex<Out>) 
             let _ = step(&sys);
             let after = snapshot(&sys);
             emit_cases(&sys, &mut it, &before, &after, &json!({"op": name, "ca": "d", "scripted": true}), None, hist, out);
+        }
+    }
+    if hist % 3 == 2 {
+        // objects one week outside their margin: a renewal run must leave every ROA and ASPA alone
+        let steps: Vec<(&str, Box<dyn Fn(&Sys) -> Result<(), String>>)> = vec![
+            ("roa_add", Box::new(|s| s.routes_update("b", &["10.0.0.0/24 => 64512", "10.1.0.0/24 => 64513"], &[]).map_err(|e| e.to_string()))),
+            ("aspa_add", Box::new(|s| s.aspas_update("b", &["AS64512 => AS64600, AS64601"], &[]).map_err(|e| e.to_string()))),
+            ("renew", Box::new(|s| s.renew().map_err(|e| e.to_string()))),
+        ];
+        for (name, step) in steps {
+            let before = snapshot(&sys);
+            let _ = step(&sys);
+            let after = snapshot(&sys);
+            emit_cases(&sys, &mut it, &before, &after, &json!({"op": name, "scripted": true}), None, hist, out);
         }
     }
     let mut st = OpState::new();
